@@ -642,12 +642,12 @@ def case_reaction(mseed, mode, op, i, j):
         try:
             n.bounds = (-1.5, 1.5)
             n.name = "edited"
-            n.notes["nested"]["k"].append(5)
-            n.annotation["kegg"].append("Z")
+            n.notes.setdefault("nested", {}).setdefault("k", []).append(5)
+            n.annotation.setdefault("kegg", []).append("Z")
             for met in sorted(n._metabolites, key=lambda x: x.id)[:2]:
                 met.name = "edited"
-                met.notes["nested"]["k"].append(5)
-                met.annotation["kegg"].append("Z")
+                met.notes.setdefault("nested", {}).setdefault("k", []).append(5)
+                met.annotation.setdefault("kegg", []).append("Z")
                 met.id = met.id + "_edited"
             if n._metabolites:   # a sum may cancel to the empty reaction
                 n.add_metabolites({sorted(n._metabolites, key=lambda x: x.id)[0]: 1.0})
@@ -661,12 +661,12 @@ def case_reaction(mseed, mode, op, i, j):
         nb = _robs(n)
         try:
             r1.bounds = (-2.5, 2.5)
-            r1.notes["nested"]["k"].append(6)
-            r1.annotation["kegg"].append("Y")
+            r1.notes.setdefault("nested", {}).setdefault("k", []).append(6)
+            r1.annotation.setdefault("kegg", []).append("Y")
             for met in sorted(r1._metabolites, key=lambda x: x.id)[:2]:
                 met.name = "edited2"
-                met.notes["nested"]["k"].append(6)
-                met.annotation["refs"][0][1] = "changed"
+                met.notes.setdefault("nested", {}).setdefault("k", []).append(6)
+                met.annotation.setdefault("refs", [["is", "u"]])[0][1] = "changed"
             if r1._metabolites:
                 r1.add_metabolites({sorted(r1._metabolites, key=lambda x: x.id)[0]: 1.0})
             r1.gene_reaction_rule = "gP or gQ"
